@@ -4,9 +4,10 @@
 From NDB Require Export Query.Clauses Query.Known Query.Cases.
 Open Scope N_scope.
 
-Record case := { cg : graph; cparams : row; cquery : query; cordered : bool; i_out : iout }.
+(* ccollect: the query uses collect() without fixing the order: collected lists are compared as multisets *)
+Record case := { cg : graph; cparams : row; cquery : query; cordered : bool; ccollect : bool; i_out : iout }.
 
 Definition ok (c : case) : bool :=
   let E := mk_env (cg c) (cparams c) None in
-  out_same (cordered c) (result_of Faithful E (cquery c)) (i_out c) &&
-  (in_known_class (cg c) (cquery c) || out_same (cordered c) (result_of Reference E (cquery c)) (i_out c)).
+  out_same_ul (ccollect c) (cordered c) (result_of Faithful E (cquery c)) (i_out c) &&
+  (in_known_class (cg c) (cquery c) || out_same_ul (ccollect c) (cordered c) (result_of Reference E (cquery c)) (i_out c)).
